@@ -16,3 +16,19 @@ package bft
 //@   ensures[justified] result == nil ==> msg != nil && msg.Qc != nil && msg.HighQc != nil && bytes(msg.HighQc.BlockHash) == blockHashOfBytes(bytes(msg.Qc.Block)) && bytes(msg.HighQc.ResultsHash) == resultsHashOf(msg.Qc.Results)
 //@   ensures[safe] result == nil ==> (bytes(b.HighQC.BlockHash) == bytes(msg.HighQc.BlockHash) && bytes(b.HighQC.ResultsHash) == bytes(msg.HighQc.ResultsHash)) || viewBefore(b.HighQC.Header, msg.HighQc.Header)
 //@   ensures[frame] unchanged(b.HighQC)
+
+// ---- C14: double-sign evidence ---------------------------------------------------------------------
+//@ func (*DoubleSignEvidence).CheckBasic
+//@   pure
+//@   ensures[shape] result == nil ==> x != nil && x.VoteA != nil && x.VoteB != nil && x.VoteA.Header != nil && x.VoteB.Header != nil && viewSame(x.VoteA.Header, x.VoteB.Header)
+
+// evidence implicates signers only if: both certificates verify for the committee, they are for the
+// same view, their signed payloads differ, the phase is past PROPOSE, and the evidence is not expired
+//@ func (*DoubleSignEvidence).Check
+//@   requires x != nil && x.VoteA != nil && x.VoteB != nil && x.VoteA.Header != nil && x.VoteB.Header != nil && x.VoteA != x.VoteB
+//@   ensures[notexpired] result == nil ==> x.VoteA.Header.RootHeight >= minimumEvidenceHeight
+//@   ensures[verifiedA] result == nil ==> aggVerifies(committeeOf(vs.MultiKey), bytes(x.VoteA.Signature.Bitmap), signBytesOf(x.VoteA), bytes(x.VoteA.Signature.Signature))
+//@   ensures[verifiedB] result == nil ==> aggVerifies(committeeOf(vs.MultiKey), bytes(x.VoteB.Signature.Bitmap), signBytesOf(x.VoteB), bytes(x.VoteB.Signature.Signature))
+//@   ensures[sameview] result == nil ==> viewSame(x.VoteA.Header, x.VoteB.Header)
+//@   ensures[differ] result == nil ==> signBytesOf(x.VoteA) != signBytesOf(x.VoteB)
+//@   ensures[phase] result == nil ==> x.VoteA.Header.Phase > Propose
